@@ -469,10 +469,18 @@ func (e *Engine) loopsOf(fn *ssa.Function) *loopInfo {
 					lp.writesHeap = true
 				case ssa.CallInstruction:
 					cc := i.Common()
-					for _, a := range cc.Args {
-						if ra := rootAlloc(a); ra != nil && !seen[ra] {
-							seen[ra] = true
-							lp.modAllocs = append(lp.modAllocs, ra)
+					argsMayBeWritten := true
+					if f := cc.StaticCallee(); f != nil {
+						if fc := e.contractOf(f); fc != nil && (fc.Pure || (fc.HasAssign && len(fc.Assigns) == 1 && fc.Assigns[0] == "nothing")) {
+							argsMayBeWritten = false
+						}
+					}
+					if argsMayBeWritten {
+						for _, a := range cc.Args {
+							if ra := rootAlloc(a); ra != nil && !seen[ra] {
+								seen[ra] = true
+								lp.modAllocs = append(lp.modAllocs, ra)
+							}
 						}
 					}
 					if b, isB := cc.Value.(*ssa.Builtin); isB && (b.Name() == "append" || b.Name() == "copy") && len(cc.Args) > 0 {
